@@ -3,4 +3,4 @@ CONSTANTS
   MaxImports = 1
   UseLayouts = {"plain", "tight", "trail", "oneline"}
   NExporters = {1, 2}
-INVARIANTS ReadsBack NewlineFixGood GlueFixGoodIffSemicolon ApplySane Emit
+INVARIANTS ReadsBack NewlineFixGood GlueFixGoodIffSeparated GlueOkNeedsSemicolon ApplySane Emit
